@@ -75,4 +75,7 @@ if __name__ == "__main__":
     if args and args[0] == "--round3":
         prefix, tag = "seed3", "3"
         args = args[1:]
+    if args and args[0].startswith("--round") and args[0][7:].isdigit():
+        prefix, tag = "seed" + args[0][7:], args[0][7:]
+        args = args[1:]
     main(args or [f"C{i:02d}" for i in range(1, 21)], prefix, tag)
